@@ -1,0 +1,18 @@
+//go:build verif
+
+package pre
+
+// VerifRegexSources exposes the source of every regular expression compiled in this
+// package (verification hook, build tag verif).
+func VerifRegexSources() map[string]string {
+	return map[string]string{
+		"dofRegex":            dofRegex.String(),
+		"ownWeightRegex":      ownWeightRegex.String(),
+		"positionPattern":     positionPattern.String(),
+		"externalLoadPattern": externalLoadPattern.String(),
+		"leftLoadPattern":     leftLoadPattern.String(),
+		"rightLoadPattern":    rightLoadPattern.String(),
+		"netLoadPattern":      netLoadPattern.String(),
+		"dofPattern":          dofPattern.String(),
+	}
+}
